@@ -7,6 +7,7 @@ NA positions; dtype family for the binary formats) + the compression magic of
 the written file read from its first bytes.
 """
 
+import datetime
 import os
 
 import numpy as np
@@ -22,7 +23,7 @@ RULE = ("seeded random frames (>=1 row, >=2 columns; bool/int/float/str/date/dat
         "read back over {pickle,npz,parquet,csv,json} x {plain,.gz,.bz2,.xz} x {sep, header, encoding, compress, compression}; non-trivial "
         "= every executed round trip; distinct = distinct (class, format, suffix, option, column kinds) signatures")
 ASSUMPTIONS = [
-    "CSV representability: each string column holds a value that cannot be parsed as number/bool/date/null, >= 2 columns, no bare carriage return, datetimes within 1900-2100 and compared as instants; without header only values are compared",
+    "CSV representability: each string column holds a value that cannot be parsed as number/bool/date/null, >= 2 columns, no bare carriage return, datetimes compared as instants (incl. years outside the nanosecond range 1678-2261); without header only values are compared",
     "JSON representability: bool/int/float/string columns (+None); dates are read back with the documented dtypes= map",
     "text must be encodable in the chosen encoding; BOM encodings (utf-16, utf-8-sig) are combined with plain paths only",
     "compression magic is asserted for writers documented to compress by suffix (csv, json, pickle); for npz and parquet only the round trip is asserted",
@@ -128,6 +129,9 @@ def generate(rng, tier):
             vals = _str_values(rng, n, ["abc", "ab", "x", "ünï"], na)
         elif kind == "datetime" and fmt == "csv":
             vals = [rng.choice(gen.DATETIMES) for _ in range(n)]
+            if rng.random() < 0.1:
+                # instants outside the range of nanosecond timestamps (1677-09-21 .. 2262-04-11), still plain ISO text in the file
+                vals[rng.randrange(n)] = rng.choice(gen.DATETIMES_EXT + [datetime.datetime(1500, 1, 1, 10, 0), datetime.datetime(2500, 6, 1, 0, 0, 1)])
             if na == "first": vals[0] = None
         elif kind == "float32":
             vals = [None if (na == "some" and rng.random() < 0.3) else rng.choice([0.1, 2.7, 1 / 3, 0.5, -1.25, 1e-3, 123456.789]) for _ in range(n)]
@@ -296,6 +300,11 @@ def execute(case):
         if not canon.cells_eq(post[n1], pre[n0], widen=fmt in ("csv", "json")):
             d_ = canon.first_diff(post[n1], pre[n0], widen=fmt in ("csv", "json"))
             kind = "na-positions" if isinstance(d_[0], int) and (d_[1] == canon.NA or d_[2] == canon.NA) else "values"
+            col_vals = [s_[2] for s_ in spec if s_[0] == n0][0]
+            if fmt == "csv" and pre_kinds[n0] == "datetime" and any(isinstance(v, datetime.datetime) and not (1678 <= v.year <= 2261) for v in col_vals):
+                # one mechanism key whatever the suffix / options (repaired in /repo, see known_findings.json 'fixed')
+                res.violate("roundtrip:csv:datetime-outside-nanosecond-range", f"column {n0}: {d_}; {ctx}")
+                return res.dict()
             res.violate(f"roundtrip:{kind}-differ:{feat}:{pre_kinds[n0]}", f"column {n0}: {d_}; {ctx}")
             return res.dict()
         if fmt in ("pickle", "npz", "parquet"):
